@@ -26,6 +26,7 @@ type Obligation struct {
 	Status Status `json:"status"`
 	Pos    string `json:"pos,omitempty"`
 	Detail string `json:"detail,omitempty"`
+	Known  string `json:"known_finding,omitempty"` // set when the violation is the one listed in known_findings.json
 }
 
 type Run struct {
@@ -147,7 +148,7 @@ func (r *Run) Finish(home string, extra map[string]any) int {
 	var nDis, nViol, nUnd, nKnown int
 	distinct := map[string]bool{}
 	var violLines []string
-	for _, o := range r.Obls {
+	for i, o := range r.Obls {
 		switch o.Status {
 		case Discharged:
 			nDis++
@@ -157,6 +158,7 @@ func (r *Run) Finish(home string, extra map[string]any) int {
 		case Violated:
 			if k, ok := knownBy[o.Key]; ok {
 				nKnown++
+				r.Obls[i].Known = k.What
 				fmt.Printf("KNOWN-FINDING: property=%s %s [%s at %s]\n", r.Property, k.What, o.Key, o.Pos)
 				continue
 			}
@@ -171,6 +173,11 @@ func (r *Run) Finish(home string, extra map[string]any) int {
 		nUnd++
 	}
 	evPath := filepath.Join(home, "evidence", r.Property+".json")
+	// experiments against a patched tree (seeded/benign controls run by the tools) keep their evidence out of /verif/evidence
+	if d := os.Getenv("VERIF_EVIDENCE_DIR"); d != "" {
+		os.MkdirAll(d, 0o755)
+		evPath = filepath.Join(d, r.Property+".json")
+	}
 	wall := time.Since(r.Start).Seconds()
 
 	// samples: a few obligations written out, preferring one per rule
